@@ -304,6 +304,10 @@ func SwitchCiphertextRingDegree(ctIn, opOut *Element[ring.Poly]) {
 			tmp0, tmp1 := opOut.Value[i].Coeffs[j], ctIn.Value[i].Coeffs[j]
 			for w0, w1 := 0, 0; w0 < NOut; w0, w1 = w0+gapIn, w1+gapOut {
 				tmp0[w0] = tmp1[w1]
+				// Y -> X^{gapIn}: the coefficients in between are zero, whatever the receiver held
+				for k := 1; k < gapIn; k++ {
+					tmp0[w0+k] = 0
+				}
 			}
 		}
 	}
